@@ -3,6 +3,7 @@
   order, from the piece (section, or raw pass-through chunk) that contains it, at the right offset inside that piece.
 -/
 import Proofs.NcchViews
+import Proofs.SaveBlocks
 namespace Pyctr
 namespace Ncch
 
@@ -158,7 +159,7 @@ theorem planInv_step (s : State) (hc : Contig s) (a n : Nat) (acc : List Piece) 
 theorem plan_spec (s : State) (hc : Contig s) (a : Nat) : ∀ n, PlanInv s a n (plan s a n) := by
   intro n
   induction n with
-  | zero => exact ⟨rfl, List.nodup_nil, fun _ h => by cases h, fun h => absurd h (Nat.lt_irrefl 0)⟩
+  | zero => exact ⟨rfl, List.nodup_nil, fun _ h => (by cases h), fun h => absurd h (Nat.lt_irrefl 0)⟩
   | succ n ih =>
     have : plan s a (n + 1) = addChunk (plan s a n) (chunkKey s (a + 0x200 * n)).1 (chunkKey s (a + 0x200 * n)).2 := by
       unfold plan
@@ -166,6 +167,636 @@ theorem plan_spec (s : State) (hc : Contig s) (a : Nat) : ∀ n, PlanInv s a n (
       rfl
     rw [this]
     exact planInv_step s hc a n _ ih
+
+/-! ### `Contig` from the geometry: sections that do not overlap -/
+
+/-- the six sections the classifier knows -/
+def six (a : Nat) : Prop := a = secRomFS ∨ a = secExeFS ∨ a = secHeader ∨ a = secExtHeader ∨ a = secLogo ∨ a = secPlain
+
+theorem six_ne_raw (a : Nat) (h : six a) : a ≠ secRaw := by
+  rcases h with h | h | h | h | h | h <;> rw [h] <;> decide
+
+/-- no chunk lies in two of the six classified regions -/
+def RegionsDisjoint (s : State) : Prop :=
+  ∀ c a b ra rb, six a → six b → a ≠ b → inRegion s c a = some ra → inRegion s c b = some rb → False
+
+theorem inRegion_some (s : State) (c sec : Nat) (r : Region) (h : inRegion s c sec = some r) :
+    s.region? sec = some r ∧ r.offset ≤ c ∧ c < r.stop := by
+  unfold inRegion at h
+  cases hr : s.region? sec with
+  | none => rw [hr] at h; cases h
+  | some r' =>
+    rw [hr] at h
+    simp only at h
+    by_cases hc : r'.offset ≤ c ∧ c < r'.stop
+    · rw [if_pos hc] at h
+      simp only [Option.some.injEq] at h
+      subst h
+      exact ⟨rfl, hc.1, hc.2⟩
+    · rw [if_neg hc] at h; cases h
+
+theorem inRegion_of (s : State) (c sec : Nat) (r : Region) (hr : s.region? sec = some r) (h1 : r.offset ≤ c) (h2 : c < r.stop) :
+    inRegion s c sec = some r := by
+  unfold inRegion
+  rw [hr]
+  simp only
+  rw [if_pos ⟨h1, h2⟩]
+
+/-- what `classify` answers: raw (then none of the six regions contains the chunk), or one of the six sections together with a
+    region of it that contains the chunk -/
+theorem classify_cases (s : State) (c : Nat) :
+    (classify s c = (secRaw, 0) ∧ ∀ a, six a → inRegion s c a = none) ∨
+      ∃ sec r, classify s c = (sec, r.offset) ∧ inRegion s c sec = some r ∧ six sec := by
+  unfold classify
+  cases h1 : inRegion s c secRomFS with
+  | some r => right; exact ⟨secRomFS, r, rfl, h1, Or.inl rfl⟩
+  | none =>
+    cases h2 : inRegion s c secExeFS with
+    | some r => right; exact ⟨secExeFS, r, rfl, h2, Or.inr (Or.inl rfl)⟩
+    | none =>
+      cases h3 : inRegion s c secHeader with
+      | some r => right; exact ⟨secHeader, r, rfl, h3, Or.inr (Or.inr (Or.inl rfl))⟩
+      | none =>
+        cases h4 : inRegion s c secExtHeader with
+        | some r => right; exact ⟨secExtHeader, r, rfl, h4, Or.inr (Or.inr (Or.inr (Or.inl rfl)))⟩
+        | none =>
+          cases h5 : inRegion s c secLogo with
+          | some r => right; exact ⟨secLogo, r, rfl, h5, Or.inr (Or.inr (Or.inr (Or.inr (Or.inl rfl))))⟩
+          | none =>
+            cases h6 : inRegion s c secPlain with
+            | some r => right; exact ⟨secPlain, r, rfl, h6, Or.inr (Or.inr (Or.inr (Or.inr (Or.inr rfl))))⟩
+            | none =>
+              left
+              refine ⟨rfl, ?_⟩
+              intro a ha
+              rcases ha with h | h | h | h | h | h <;> rw [h] <;> assumption
+
+/-- with non-overlapping sections, a chunk inside a region of one of the six sections is attributed to that section -/
+theorem classify_in (s : State) (hd : RegionsDisjoint s) (c sec : Nat) (r : Region) (hin : inRegion s c sec = some r)
+    (h6 : six sec) : classify s c = (sec, r.offset) := by
+  rcases classify_cases s c with ⟨_, hnone⟩ | ⟨sec', r', h, hin', h6'⟩
+  · rw [hnone sec h6] at hin; cases hin
+  · by_cases hs : sec' = sec
+    · subst hs
+      rw [hin] at hin'
+      simp only [Option.some.injEq] at hin'
+      rw [h, hin']
+    · exact absurd (hd c sec' sec r' r h6' h6 hs hin' hin) id
+
+theorem six_mem (a : Nat) (h : six a) : a ∈ sixList := by
+  rcases h with h | h | h | h | h | h <;> rw [h] <;> simp [sixList]
+
+/-- the decidable criterion (evaluated by the driver on every image): pairwise non-overlapping regions -/
+theorem regionsDisjoint_of_apart (s : State) (h : regionsApart s = true) : RegionsDisjoint s := by
+  intro c a b ra rb ha hb hab hia hib
+  unfold regionsApart at h
+  rw [List.all_eq_true] at h
+  have h1 := h a (six_mem a ha)
+  rw [List.all_eq_true] at h1
+  have h2 := h1 b (six_mem b hb)
+  obtain ⟨ea, la, ua⟩ := inRegion_some s c a ra hia
+  obtain ⟨eb, lb, ub⟩ := inRegion_some s c b rb hib
+  rw [ea, eb] at h2
+  have hne : (a == b) = false := by simpa using hab
+  simp only [hne, Bool.false_or, decide_eq_true_eq] at h2
+  omega
+
+theorem contig_of_disjoint (s : State) (hd : RegionsDisjoint s) : Contig s := by
+  intro c d hkey e he
+  unfold chunkKey at hkey ⊢
+  rcases classify_cases s c with ⟨h, _⟩ | ⟨sec, r, h, hin, h6⟩
+  · -- a raw chunk: its key carries the chunk offset, so d = 0
+    rw [h] at hkey ⊢
+    simp only [beq_self_eq_true, if_true] at hkey ⊢
+    have hd0 : d = 0 := by
+      by_cases hr : ((classify s (c + 0x200 * d)).1 == secRaw) = true
+      · rw [if_pos hr] at hkey
+        simp only [Prod.mk.injEq, true_and] at hkey
+        omega
+      · rw [if_neg hr] at hkey
+        simp only [Prod.mk.injEq] at hkey
+        have : (classify s (c + 0x200 * d)).1 = secRaw := hkey.1.symm
+        rw [this] at hr
+        simp at hr
+    have he0 : e = 0 := by omega
+    subst he0
+    simp only [Nat.mul_zero, Nat.add_zero, h, beq_self_eq_true, if_true]
+  · rw [h] at hkey ⊢
+    have hne := six_ne_raw sec h6
+    have hb : (sec == secRaw) = false := by simpa using hne
+    simp only [hb, Bool.false_eq_true, if_false] at hkey ⊢
+    -- the far chunk lies in the same section, hence in the same region
+    obtain ⟨hr, hlo, hhi⟩ := inRegion_some s c sec r hin
+    have hfar : ∃ r', inRegion s (c + 0x200 * d) sec = some r' := by
+      rcases classify_cases s (c + 0x200 * d) with ⟨h', _⟩ | ⟨sec', r', h', hin', h6'⟩
+      · rw [h'] at hkey
+        simp only [beq_self_eq_true, if_true, Prod.mk.injEq] at hkey
+        exact absurd hkey.1 hne
+      · rw [h'] at hkey
+        have hb' : (sec' == secRaw) = false := by simpa using six_ne_raw sec' h6'
+        simp only [hb', Bool.false_eq_true, if_false, Prod.mk.injEq] at hkey
+        rw [hkey.1]; exact ⟨r', hin'⟩
+    obtain ⟨r', hin'⟩ := hfar
+    obtain ⟨hr', _, hhi'⟩ := inRegion_some s _ sec r' hin'
+    rw [hr] at hr'
+    simp only [Option.some.injEq] at hr'
+    subst hr'
+    have hmid : inRegion s (c + 0x200 * e) sec = some r :=
+      inRegion_of s _ sec r hr (by omega) (by
+        have : 0x200 * e ≤ 0x200 * d := Nat.mul_le_mul_left _ he
+        omega)
+    rw [classify_in s hd (c + 0x200 * e) sec r hmid h6]
+    simp only [hb, Bool.false_eq_true, if_false, Prod.mk.injEq, true_and]
+    omega
+
+/-! ### the assembly: first piece loses `before` bytes at the front, last piece loses `k` bytes at the end -/
+
+def trimLast (k : Nat) : List Bytes → List Bytes
+  | [] => []
+  | [b] => [b.take (b.length - k)]
+  | b :: c :: r => b :: trimLast k (c :: r)
+
+def trimBlocks (before k : Nat) : List Bytes → List Bytes
+  | [] => []
+  | [b] => [(b.drop before).take ((b.drop before).length - k)]
+  | b :: c :: r => b.drop before :: trimLast k (c :: r)
+
+theorem mem_length_le_flatten (bs : List Bytes) (l : Bytes) (h : l ∈ bs) : l.length ≤ bs.flatten.length := by
+  induction bs with
+  | nil => cases h
+  | cons b r ih =>
+    simp only [List.flatten_cons, List.length_append]
+    rcases List.mem_cons.mp h with h | h
+    · subst h; omega
+    · have := ih h; omega
+
+theorem flatten_trimLast (k : Nat) : ∀ (bs : List Bytes), bs ≠ [] → (∀ l, bs.getLast? = some l → k ≤ l.length) →
+    (trimLast k bs).flatten = bs.flatten.take (bs.flatten.length - k) := by
+  intro bs
+  induction bs with
+  | nil => intro h; exact absurd rfl h
+  | cons b r ih =>
+    intro _ hl
+    cases r with
+    | nil => simp [trimLast]
+    | cons c r' =>
+      have hl' : ∀ l, (c :: r').getLast? = some l → k ≤ l.length := by
+        intro l hh; apply hl; rw [List.getLast?_cons_cons]; exact hh
+      have := ih (by simp) hl'
+      simp only [trimLast, List.flatten_cons] at this ⊢
+      rw [this]
+      have hk : k ≤ (c ++ r'.flatten).length := by
+        -- the last block is inside the tail
+        obtain ⟨l, hlast⟩ : ∃ l, (c :: r').getLast? = some l := by
+          cases hx : (c :: r').getLast? with
+          | none => simp at hx
+          | some l => exact ⟨l, rfl⟩
+        have hkl := hl' l hlast
+        have hmem : l ∈ (c :: r') := List.mem_of_getLast? hlast
+        have : l.length ≤ (c :: r').flatten.length := mem_length_le_flatten _ _ hmem
+        simp only [List.flatten_cons] at this
+        omega
+      rw [List.take_append (l₁ := b), List.take_of_length_le (l := b) (by simp only [List.length_append] at hk ⊢; omega)]
+      congr 2
+      simp only [List.length_append] at hk ⊢
+      omega
+
+theorem flatten_trimBlocks (before k : Nat) : ∀ (bs : List Bytes), bs ≠ [] →
+    (∀ h, bs.head? = some h → before ≤ h.length) → (∀ l, bs.getLast? = some l → k ≤ l.length) →
+    (∀ b, bs = [b] → before + k ≤ b.length) →
+    (trimBlocks before k bs).flatten = (bs.flatten.drop before).take (bs.flatten.length - before - k) := by
+  intro bs hne hh hl hs
+  cases bs with
+  | nil => exact absurd rfl hne
+  | cons b r =>
+    cases r with
+    | nil =>
+      simp only [trimBlocks, List.flatten_cons, List.flatten_nil, List.append_nil, List.length_drop]
+    | cons c r' =>
+      have hb := hh b rfl
+      have hl' : ∀ l, (c :: r').getLast? = some l → k ≤ l.length := by
+        intro l hx; apply hl; rw [List.getLast?_cons_cons]; exact hx
+      simp only [trimBlocks, List.flatten_cons]
+      rw [flatten_trimLast k (c :: r') (by simp) hl']
+      simp only [List.flatten_cons]
+      rw [List.drop_append_of_le_length hb]
+      have hk : k ≤ (c ++ r'.flatten).length := by
+        obtain ⟨l, hlast⟩ : ∃ l, (c :: r').getLast? = some l := by
+          cases hx : (c :: r').getLast? with
+          | none => simp at hx
+          | some l => exact ⟨l, rfl⟩
+        have hkl := hl' l hlast
+        have hmem : l ∈ (c :: r') := List.mem_of_getLast? hlast
+        have : l.length ≤ (c :: r').flatten.length := mem_length_le_flatten _ _ hmem
+        simp only [List.flatten_cons] at this
+        omega
+      rw [List.take_append (l₁ := b.drop before), List.take_of_length_le (l := b.drop before) (by
+        simp only [List.length_append, List.length_drop] at hk ⊢; omega)]
+      congr 2
+      simp only [List.length_append, List.length_drop] at hk ⊢
+      omega
+
+/-- the crypto-flag rewrite of the header piece -/
+def patchHdr (key : Nat × Nat) (d : Bytes) : Bytes := if key.1 == secHeader then setByte (setByte d 0x18B 0) 0x18F 4 else d
+
+theorem pySlice_neg (d : Bytes) (k : Nat) (hk : 0 < k) : pySlice d 0 (-(k : Int)) = d.take (d.length - k) := by
+  unfold pySlice pyIdx
+  simp only [show ¬ ((0 : Int) < 0) by omega, if_false, show (-(k : Int)) < 0 by omega, if_true]
+  have h1 : min (0 : Int).toNat d.length = 0 := by simp
+  rw [h1]
+  have h2 : ((d.length : Int) + -(k : Int)).toNat = d.length - k := by omega
+  rw [h2]
+  simp [slice]
+
+/-- `pieceBytes` in terms of the three elementary steps -/
+theorem pieceBytes_eq (before cutEnd : Nat) (lastKey : Option (Nat × Nat)) (st : Bool) (key : Nat × Nat) (d : Bytes)
+    (hc : 0 < cutEnd) :
+    pieceBytes before cutEnd lastKey st key d =
+      (if some key == lastKey then
+        (if st then (patchHdr key d).drop before else patchHdr key d).take
+          ((if st then (patchHdr key d).drop before else patchHdr key d).length - (if cutEnd = 0x200 then 0 else cutEnd))
+       else (if st then (patchHdr key d).drop before else patchHdr key d)) := by
+  unfold pieceBytes patchHdr
+  simp only
+  generalize (if st = true then List.drop before (if (key.1 == secHeader) = true then setByte (setByte d 0x18B 0) 0x18F 4 else d)
+    else if (key.1 == secHeader) = true then setByte (setByte d 0x18B 0) 0x18F 4 else d) = d2
+  by_cases hl : (some key == lastKey) = true
+  · rw [if_pos hl]
+    by_cases h2 : cutEnd = 0x200
+    · simp [hl, h2]
+    · have : (cutEnd != 0x200) = true := by simpa using h2
+      simp only [hl, this, Bool.and_self, if_true, if_neg h2]
+      exact pySlice_neg d2 cutEnd hc
+  · rw [if_neg hl]
+    have : (some key == lastKey) = false := by simpa using hl
+    simp [this]
+
+/-- the pieces after trimming, as the second loop produces them -/
+def trimmed (dat : Piece → Bytes) (before cutEnd : Nat) (lastKey : Option (Nat × Nat)) : Bool → List Piece → List Bytes
+  | _, [] => []
+  | st, p :: r => pieceBytes before cutEnd lastKey st p.1 (dat p) :: trimmed dat before cutEnd lastKey false r
+
+theorem assemble_fold (gd : Nat → Nat → Int → Except Err Bytes) (dat : Piece → Bytes) (before cutEnd : Nat)
+    (lastKey : Option (Nat × Nat)) : ∀ (ps : List Piece) (out : List Bytes) (st : Bool),
+    (∀ p, p ∈ ps → gd p.1.1 p.2.1 (p.2.2 : Int) = .ok (dat p)) →
+    ∃ st', ps.foldl (assembleStep gd before cutEnd lastKey) (.ok (out, st)) = .ok (out ++ trimmed dat before cutEnd lastKey st ps, st') := by
+  intro ps
+  induction ps with
+  | nil => intro out st _; exact ⟨st, by simp [trimmed]⟩
+  | cons p r ih =>
+    intro out st h
+    simp only [List.foldl_cons]
+    have hp := h p (by simp)
+    have : assembleStep gd before cutEnd lastKey (.ok (out, st)) p =
+        .ok (out ++ [pieceBytes before cutEnd lastKey st p.1 (dat p)], false) := by
+      unfold assembleStep; simp only [hp]
+    rw [this]
+    obtain ⟨st', hst⟩ := ih (out ++ [pieceBytes before cutEnd lastKey st p.1 (dat p)]) false (fun q hq => h q (by simp [hq]))
+    exact ⟨st', by rw [hst]; simp [trimmed]⟩
+
+theorem trimmed_false (dat : Piece → Bytes) (before cutEnd : Nat) (hc : 0 < cutEnd) : ∀ (ps : List Piece) (last : Piece),
+    ps.getLast? = some last → (ps.map (·.1)).Nodup →
+    trimmed dat before cutEnd (some last.1) false ps =
+      trimLast (if cutEnd = 0x200 then 0 else cutEnd) (ps.map fun p => patchHdr p.1 (dat p)) := by
+  intro ps
+  induction ps with
+  | nil => intro last h; simp at h
+  | cons p r ih =>
+    intro last hl hnd
+    cases r with
+    | nil =>
+      simp only [List.getLast?_singleton, Option.some.injEq] at hl
+      subst hl
+      simp only [trimmed, List.map_cons, List.map_nil, trimLast]
+      rw [pieceBytes_eq _ _ _ _ _ _ hc]
+      simp
+    | cons q r' =>
+      rw [List.getLast?_cons_cons] at hl
+      have hne : p.1 ≠ last.1 := by
+        intro hc'
+        simp only [List.map_cons, List.nodup_cons] at hnd
+        apply hnd.1
+        rw [hc']
+        have : last ∈ q :: r' := List.mem_of_getLast? hl
+        rw [← List.map_cons]
+        exact List.mem_map.mpr ⟨last, this, rfl⟩
+      have hnd' : ((q :: r').map (·.1)).Nodup := by
+        simp only [List.map_cons, List.nodup_cons] at hnd ⊢
+        exact hnd.2
+      have := ih last hl hnd'
+      simp only [trimmed, List.map_cons, trimLast] at this ⊢
+      rw [pieceBytes_eq _ _ _ _ _ _ hc]
+      have hb : (some p.1 == some last.1) = false := by simpa using hne
+      simp only [hb, Bool.false_eq_true, if_false]
+      rw [this]
+
+theorem trimmed_true (dat : Piece → Bytes) (before cutEnd : Nat) (hc : 0 < cutEnd) (ps : List Piece) (last : Piece)
+    (hl : ps.getLast? = some last) (hnd : (ps.map (·.1)).Nodup) :
+    trimmed dat before cutEnd (some last.1) true ps =
+      trimBlocks before (if cutEnd = 0x200 then 0 else cutEnd) (ps.map fun p => patchHdr p.1 (dat p)) := by
+  cases ps with
+  | nil => simp at hl
+  | cons p r =>
+    cases r with
+    | nil =>
+      simp only [List.getLast?_singleton, Option.some.injEq] at hl
+      subst hl
+      simp only [trimmed, List.map_cons, List.map_nil, trimBlocks]
+      rw [pieceBytes_eq _ _ _ _ _ _ hc]
+      simp
+    | cons q r' =>
+      rw [List.getLast?_cons_cons] at hl
+      have hne : p.1 ≠ last.1 := by
+        intro hc'
+        simp only [List.map_cons, List.nodup_cons] at hnd
+        apply hnd.1
+        rw [hc']
+        have : last ∈ q :: r' := List.mem_of_getLast? hl
+        rw [← List.map_cons]
+        exact List.mem_map.mpr ⟨last, this, rfl⟩
+      have hnd' : ((q :: r').map (·.1)).Nodup := by
+        simp only [List.map_cons, List.nodup_cons] at hnd ⊢
+        exact hnd.2
+      have := trimmed_false dat before cutEnd hc (q :: r') last hl hnd'
+      simp only [trimmed, List.map_cons, trimBlocks] at this ⊢
+      rw [pieceBytes_eq _ _ _ _ _ _ hc]
+      have hb : (some p.1 == some last.1) = false := by simpa using hne
+      simp only [hb, Bool.false_eq_true, if_false, if_true]
+      rw [this]
+
+theorem assemble_spec (gd : Nat → Nat → Int → Except Err Bytes) (dat : Piece → Bytes) (before cutEnd : Nat) (hc : 0 < cutEnd)
+    (ps : List Piece) (last : Piece) (hl : ps.getLast? = some last) (hnd : (ps.map (·.1)).Nodup)
+    (hgd : ∀ p, p ∈ ps → gd p.1.1 p.2.1 (p.2.2 : Int) = .ok (dat p))
+    (hlen : ∀ p, p ∈ ps → 0x200 ≤ (patchHdr p.1 (dat p)).length) (hb : before < 0x200) (hk : cutEnd ≤ 0x200)
+    (hsingle : ∀ p, ps = [p] → before + (if cutEnd = 0x200 then 0 else cutEnd) ≤ (patchHdr p.1 (dat p)).length) :
+    assemble gd before cutEnd (some last.1) ps =
+      .ok (((ps.map fun p => patchHdr p.1 (dat p)).flatten.drop before).take
+        ((ps.map fun p => patchHdr p.1 (dat p)).flatten.length - before - (if cutEnd = 0x200 then 0 else cutEnd))) := by
+  unfold assemble
+  obtain ⟨st', hf⟩ := assemble_fold gd dat before cutEnd (some last.1) ps [] true hgd
+  rw [hf]
+  simp only [List.nil_append]
+  rw [trimmed_true dat before cutEnd hc ps last hl hnd]
+  have hne : ps ≠ [] := by intro h; rw [h] at hl; simp at hl
+  rw [flatten_trimBlocks before _ (ps.map fun p => patchHdr p.1 (dat p)) (by simpa using hne)]
+  · intro h hh
+    rw [List.head?_map] at hh
+    cases hp : ps.head? with
+    | none => rw [hp] at hh; simp at hh
+    | some p =>
+      rw [hp] at hh
+      simp only [Option.map_some, Option.some.injEq] at hh
+      rw [← hh]
+      have := hlen p (List.mem_of_head? hp)
+      omega
+  · intro l hh
+    rw [List.getLast?_map, hl] at hh
+    simp only [Option.map_some, Option.some.injEq] at hh
+    rw [← hh]
+    have := hlen last (List.mem_of_getLast? hl)
+    split <;> omega
+  · intro b hb1
+    cases ps with
+    | nil => simp at hb1
+    | cons p r =>
+      cases r with
+      | nil =>
+        simp only [List.map_cons, List.map_nil, List.cons.injEq, and_true] at hb1
+        rw [← hb1]
+        exact hsingle p rfl
+      | cons q r' => simp at hb1
+
+theorem flatten_slices_off (W : Bytes) (off bs m : Nat) :
+    ((List.range m).map fun j => slice W (off + bs * j) bs).flatten = slice W off (bs * m) := by
+  induction m with
+  | zero => simp [slice]
+  | succ m ih =>
+    rw [List.range_succ, List.map_append, List.flatten_append, ih]
+    simp only [List.map_cons, List.map_nil, List.flatten_cons, List.flatten_nil, List.append_nil]
+    rw [slice_append_slice, Nat.mul_succ]
+
+/-- the source a chunk is served from, with the header's crypto flags already rewritten -/
+def csrc (src : Nat → Bytes) (sec : Nat) : Bytes :=
+  if sec == secHeader then setByte (setByte (src sec) 0x18B 0) 0x18F 4 else src sec
+
+def chunkContent (s : State) (src : Nat → Bytes) (c : Nat) : Bytes :=
+  slice (csrc src (chunkKey s c).1.1) (chunkKey s c).2 0x200
+
+theorem setByte_length (d : Bytes) (i : Nat) (v : UInt8) : (setByte d i v).length = d.length := by
+  unfold setByte; split <;> simp
+
+theorem csrc_length (src : Nat → Bytes) (sec : Nat) : (csrc src sec).length = (src sec).length := by
+  unfold csrc; split
+  · rw [setByte_length, setByte_length]
+  · rfl
+
+/-- the pieces, expanded to chunks, carry the same bytes -/
+theorem pieces_flatten (src : Nat → Bytes) : ∀ (ps : List Piece), (∀ p, p ∈ ps → p.2.2 % 0x200 = 0) →
+    (ps.map fun p => slice (csrc src p.1.1) p.2.1 p.2.2).flatten =
+      ((expand ps).map fun x => slice (csrc src x.1.1) x.2 0x200).flatten := by
+  intro ps
+  induction ps with
+  | nil => intro _; rfl
+  | cons p r ih =>
+    intro h
+    have hp := h p (by simp)
+    rw [show p :: r = [p] ++ r by rfl, expand_append, List.map_append, List.map_append, List.flatten_append, List.flatten_append,
+      ih (fun q hq => h q (by simp [hq]))]
+    congr 1
+    rw [expand_single]
+    simp only [List.map_cons, List.map_nil, List.flatten_cons, List.flatten_nil, List.append_nil, List.map_map]
+    have := flatten_slices_off (csrc src p.1.1) p.2.1 0x200 (p.2.2 / 0x200)
+    rw [show 0x200 * (p.2.2 / 0x200) = p.2.2 by omega] at this
+    rw [← this]
+    rfl
+
+/-- the regular situation: sections do not overlap; `get_data` of a section or of a raw chunk returns the slice of that
+    source (what the C03 section theorems and the window theorems give); every chunk of the first `N` lies inside its source; the
+    header is the single chunk at offset 0 -/
+structure ReadGeom (E : Bytes → Bytes → Bytes) (s : State) (file : Bytes) (start : Nat) (src : Nat → Bytes) (N : Nat) : Prop where
+  disjoint : RegionsDisjoint s
+  gd : ∀ sec off sz, 0 < sz → off + sz ≤ (src sec).length → getData E s file start sec off (sz : Int) = .ok (slice (src sec) off sz)
+  inside : ∀ i, i < N → (chunkKey s (0x200 * i)).2 + 0x200 ≤ (src (chunkKey s (0x200 * i)).1.1).length
+  hdr : ∀ i, i < N → (chunkKey s (0x200 * i)).1.1 = secHeader →
+    (chunkKey s (0x200 * i)).2 = 0 ∧ (src secHeader).length = 0x200
+
+/-- the one image every read of the fully-decrypted view is a slice of -/
+def fullImage (s : State) (src : Nat → Bytes) (N : Nat) : Bytes := (List.range N).flatMap fun i => chunkContent s src (0x200 * i)
+
+theorem chunkContent_length (E : Bytes → Bytes → Bytes) (s : State) (file : Bytes) (start : Nat) (src : Nat → Bytes) (N : Nat)
+    (g : ReadGeom E s file start src N) (i : Nat) (hi : i < N) : (chunkContent s src (0x200 * i)).length = 0x200 := by
+  unfold chunkContent
+  rw [slice_length, csrc_length]
+  have := g.inside i hi
+  omega
+
+theorem fullImage_slice (E : Bytes → Bytes → Bytes) (s : State) (file : Bytes) (start : Nat) (src : Nat → Bytes) (N : Nat)
+    (g : ReadGeom E s file start src N) (a n : Nat) (h : a + n ≤ N) :
+    ((List.range n).map fun i => chunkContent s src (0x200 * a + 0x200 * i)).flatten = slice (fullImage s src N) (a * 0x200) (n * 0x200) := by
+  rw [← Save.flatten_slices (fullImage s src N) 0x200 a n]
+  congr 1
+  apply List.map_congr_left
+  intro i hi
+  rw [List.mem_range] at hi
+  have := Save.flatMap_block (fun i => chunkContent s src (0x200 * i)) 0x200 N
+    (fun b hb => chunkContent_length E s file start src N g b (by omega))
+    (fun b hb => by rw [chunkContent_length E s file start src N g b hb]; exact Nat.le_refl _) (a + i) (by omega)
+  rw [show 0x200 * a + 0x200 * i = 0x200 * (a + i) by rw [Nat.mul_add]]
+  exact this
+
+/-- **C04: one consistent image.**  On a regular NCCH every read of the fully-decrypted view — any offset, any length, inside a
+    chunk, across section boundaries, over gaps — returns the corresponding slice of `fullImage` -/
+theorem fullRead_spec (E : Bytes → Bytes → Bytes) (s : State) (file : Bytes) (start : Nat) (src : Nat → Bytes) (N : Nat)
+    (g : ReadGeom E s file start src N) (r : Region) (hr : s.region? secFull = some r) (offset size : Nat) (hs : 0 < size)
+    (h1 : offset + size ≤ r.size) (h2 : start + offset + size ≤ file.length) (h3 : offset + size ≤ 0x200 * N) :
+    fullRead E s file start offset (size : Int) = .ok (slice (fullImage s src N) offset size) := by
+  have hc := contig_of_disjoint s g.disjoint
+  unfold fullRead
+  rw [hr]
+  simp only
+  rw [if_neg (by omega), if_neg (by omega), if_neg (by omega)]
+  -- the aligned request
+  generalize hbefore : offset % 0x200 = before
+  have hbl : before < 0x200 := by rw [← hbefore]; exact Nat.mod_lt _ (by omega)
+  generalize ha : offset / 0x200 = a
+  have hoff : offset = 0x200 * a + before := by rw [← ha, ← hbefore]; exact (Nat.div_add_mod offset 0x200).symm
+  have hal : offset - before = 0x200 * a := by omega
+  rw [hal]
+  have hals : ((size : Int) + (before : Int)) = ((size + before : Nat) : Int) := by omega
+  rw [hals]
+  rw [if_neg (by omega)]
+  simp only [Int.toNat_natCast]
+  generalize hn : (size + before + 0x1FF) / 0x200 = n
+  have hnpos : 0 < n := by rw [← hn]; omega
+  have hnlo : size + before ≤ 0x200 * n := by rw [← hn]; omega
+  have hnhi : 0x200 * n < size + before + 0x200 := by rw [← hn]; omega
+  have hmod : ((((size + before : Nat) : Int) % 0x200).toNat) = (size + before) % 0x200 := by omega
+  rw [hmod]
+  generalize hcut : 0x200 - (size + before) % 0x200 = cutEnd
+  have hc0 : 0 < cutEnd := by rw [← hcut]; have := Nat.mod_lt (size + before) (by omega : 0 < 0x200); omega
+  have hcle : cutEnd ≤ 0x200 := by omega
+  generalize hk : (if cutEnd = 0x200 then 0 else cutEnd) = k
+  have hksum : size + before + k = 0x200 * n := by
+    rw [← hk, ← hcut]
+    have hdm := Nat.div_add_mod (size + before) 0x200
+    split <;> omega
+  have haN : a + n ≤ N := by omega
+  -- the plan
+  have hplan := plan_spec s hc (0x200 * a) n
+  obtain ⟨init, last, hps, hlastk⟩ := hplan.last hnpos
+  have hlastget : (plan s (0x200 * a) n).getLast? = some last := by rw [hps]; simp
+  have hlk : (((List.range n).map fun i => 0x200 * a + 0x200 * i).getLast?).map (fun c => (chunkKey s c).1) = some last.1 := by
+    rw [List.getLast?_map, List.getLast?_range, if_neg (by omega)]
+    simp only [Option.map_some]
+    rw [hlastk]
+  rw [hlk]
+  -- chunks of the plan are chunks of the image
+  have hmemchunk : ∀ x, x ∈ expand (plan s (0x200 * a) n) → ∃ i, i < N ∧ x = chunkKey s (0x200 * i) := by
+    intro x hx
+    rw [hplan.chunks, List.mem_map] at hx
+    obtain ⟨i, hi, hxi⟩ := hx
+    rw [List.mem_range] at hi
+    exact ⟨a + i, by omega, by rw [← hxi, Nat.mul_add]⟩
+  have hpiece_in : ∀ p, p ∈ plan s (0x200 * a) n → p.2.1 + p.2.2 ≤ (src p.1.1).length ∧
+      (p.1.1 = secHeader → p.2.1 = 0 ∧ (src secHeader).length = 0x200) := by
+    intro p hp
+    obtain ⟨hsz1, hsz2⟩ := hplan.sizes p hp
+    have hlastc : (p.1, p.2.1 + 0x200 * (p.2.2 / 0x200 - 1)) ∈ expand (plan s (0x200 * a) n) := by
+      unfold expand
+      rw [List.mem_flatMap]
+      exact ⟨p, hp, List.mem_map.mpr ⟨p.2.2 / 0x200 - 1, List.mem_range.mpr (by omega), rfl⟩⟩
+    have hfirstc : (p.1, p.2.1 + 0x200 * 0) ∈ expand (plan s (0x200 * a) n) := by
+      unfold expand
+      rw [List.mem_flatMap]
+      exact ⟨p, hp, List.mem_map.mpr ⟨0, List.mem_range.mpr (by omega), rfl⟩⟩
+    obtain ⟨i, hi, hxi⟩ := hmemchunk _ hlastc
+    obtain ⟨j, hj, hxj⟩ := hmemchunk _ hfirstc
+    have hin := g.inside i hi
+    rw [← hxi] at hin
+    simp only at hin
+    refine ⟨by omega, fun hh => ?_⟩
+    have := g.hdr j hj (by rw [← hxj]; exact hh)
+    rw [← hxj] at this
+    simpa using this
+  -- the data of a piece, patched, is a slice of the (patched) source
+  have hB : ∀ p, p ∈ plan s (0x200 * a) n →
+      patchHdr p.1 (slice (src p.1.1) p.2.1 p.2.2) = slice (csrc src p.1.1) p.2.1 p.2.2 := by
+    intro p hp
+    obtain ⟨hin, hh⟩ := hpiece_in p hp
+    obtain ⟨hsz1, hsz2⟩ := hplan.sizes p hp
+    unfold patchHdr csrc
+    by_cases hhd : (p.1.1 == secHeader) = true
+    · rw [if_pos hhd, if_pos hhd]
+      have heq : p.1.1 = secHeader := by simpa using hhd
+      obtain ⟨ho, hl⟩ := hh heq
+      rw [heq] at hin ⊢
+      have hsz : p.2.2 = 0x200 := by omega
+      rw [ho, hsz, slice_all _ _ (by omega), slice_all _ _ (by rw [setByte_length, setByte_length]; omega)]
+    · rw [if_neg hhd, if_neg hhd]
+  have hgd : ∀ p, p ∈ plan s (0x200 * a) n →
+      getData E s file start p.1.1 p.2.1 (p.2.2 : Int) = .ok (slice (src p.1.1) p.2.1 p.2.2) :=
+    fun p hp => g.gd _ _ _ (hplan.sizes p hp).1 (hpiece_in p hp).1
+  have hBlen : ∀ p, p ∈ plan s (0x200 * a) n → (patchHdr p.1 (slice (src p.1.1) p.2.1 p.2.2)).length = p.2.2 := by
+    intro p hp
+    rw [hB p hp, slice_length, csrc_length]
+    have := (hpiece_in p hp).1
+    omega
+  -- the concatenation of the pieces is the aligned window of the image
+  have hflat : ((plan s (0x200 * a) n).map fun p => patchHdr p.1 (slice (src p.1.1) p.2.1 p.2.2)).flatten =
+      slice (fullImage s src N) (a * 0x200) (n * 0x200) := by
+    rw [List.map_congr_left (g := fun p => slice (csrc src p.1.1) p.2.1 p.2.2) hB,
+      pieces_flatten src _ (fun p hp => (hplan.sizes p hp).2), hplan.chunks, List.map_map,
+      ← fullImage_slice E s file start src N g a n haN]
+    rfl
+  have hWlen : (fullImage s src N).length = N * 0x200 := by
+    unfold fullImage
+    exact Save.flatMap_length_uniform _ 0x200 N (fun b hb => chunkContent_length E s file start src N g b hb)
+  rw [assemble_spec (getData E s file start) (fun p => slice (src p.1.1) p.2.1 p.2.2) before cutEnd hc0 _ last hlastget hplan.nodup
+    hgd (fun p hp => by rw [hBlen p hp]; have := hplan.sizes p hp; omega) hbl hcle
+    (fun p hp1 => by
+      have hp : p ∈ plan s (0x200 * a) n := by rw [hp1]; simp
+      have htot := congrArg List.length hflat
+      rw [hp1] at htot
+      simp only [List.map_cons, List.map_nil, List.flatten_cons, List.flatten_nil, List.append_nil, slice_length, hWlen] at htot
+      rw [hk, htot]
+      have : a * 0x200 + n * 0x200 ≤ N * 0x200 := by rw [← Nat.add_mul]; exact Nat.mul_le_mul_right _ haN
+      omega)]
+  rw [hflat, hk, slice_length, hWlen]
+  have hle : a * 0x200 + n * 0x200 ≤ N * 0x200 := by rw [← Nat.add_mul]; exact Nat.mul_le_mul_right _ haN
+  rw [Nat.min_eq_left (Nat.le_sub_of_add_le (by rw [Nat.add_comm]; exact hle) : n * 0x200 ≤ N * 0x200 - a * 0x200), Save.slice_drop, Save.slice_take]
+  have e1 : a * 0x200 + before = offset := by omega
+  have e2 : min (n * 0x200 - before - k) (n * 0x200 - before) = size := by omega
+  rw [e1, e2]
+
+/-- the sources of a container without encryption (NoCrypto flag, or opened with `assume_decrypted`): the windows themselves -/
+def plainSrc (s : State) (file : Bytes) (start : Nat) (sec : Nat) : Bytes :=
+  match s.region? sec with
+  | some r => slice file (start + r.offset) r.size
+  | none => []
+
+/-- … for which the `get_data` hypothesis of the one-image theorem holds outright -/
+theorem gd_plain (E : Bytes → Bytes → Bytes) (s : State) (file : Bytes) (start : Nat)
+    (hplain : (s.assumeDecrypted || s.flags.noCrypto) = true) (sec off sz : Nat) (hsz : 0 < sz)
+    (h : off + sz ≤ (plainSrc s file start sec).length) :
+    getData E s file start sec off (sz : Int) = .ok (slice (plainSrc s file start sec) off sz) := by
+  unfold plainSrc at h ⊢
+  unfold getData
+  cases hr : s.region? sec with
+  | none => rw [hr] at h; simp at h; omega
+  | some r =>
+    rw [hr] at h
+    simp only at h ⊢
+    rw [slice_length] at h
+    have hin : off + sz ≤ r.size := by omega
+    rw [if_neg (show ¬ ((off : Int) + (sz : Int) > (r.size : Int)) by omega)]
+    rw [if_neg (show ¬ ((sz : Int) < 0) by omega)]
+    simp only [Int.toNat_natCast]
+    have : (s.assumeDecrypted || s.flags.noCrypto || sec == secHeader || sec == secLogo || sec == secPlain || sec == secRaw) = true := by
+      simp only [Bool.or_eq_true] at hplain ⊢
+      rcases hplain with h1 | h1
+      · exact Or.inl (Or.inl (Or.inl (Or.inl (Or.inl h1))))
+      · exact Or.inl (Or.inl (Or.inl (Or.inl (Or.inr h1))))
+    rw [if_pos this, slice_slice _ _ _ _ _ hin, Nat.add_assoc]
 
 end Ncch
 end Pyctr
